@@ -6,14 +6,15 @@ from props import solver_common as sc
 
 ID = 'C17'
 PROPS_FILE = 'Props/C17.v'
-MODEL_FILES = ['Solver/Solver.v', 'Solver/SolverF.v', 'Solver/SolveAll.v', 'Tracer/Tracer.v', 'Tracer/TracerSolve.v', 'Tracer/TracerNames.v', 'Tracer/TracerLinked.v', 'Tracer/TracerF.v']
+MODEL_FILES = ['Solver/Solver.v', 'Solver/SolverF.v', 'Solver/SolveAll.v', 'Tracer/Tracer.v', 'Tracer/TracerSolve.v', 'Tracer/TracerNames.v', 'Tracer/TracerLinked.v', 'Tracer/TracerReindex.v', 'Tracer/TracerF.v']
 K_NAME = ('K_tracer: (1) Tracer.traced_solve_t, TracerSolve.traced_solve_period_all / traced_solve_all (solve() from its start= / end= LABELS), '
           'the public snapshot methods trace_t / trace_period called directly, and Trace.to_dataframe of every period, with their untraced twins '
           'Solver.solve_t_M, SolveAll.solve_period_M / solve_M, instantiated with PrimFloat, vs TracerMixin over scripted and parser-built models: '
           'state, every Trace object (names, labels, values), its data frame, result lists / exception class + cause after every call of a call '
           'sequence; (2) TracerNames.trace_names (heap model of WHICH list object a new Trace keeps) vs the observed identities (is Trace.names the '
           'model\'s list / TRACE_VARIABLES / the caller\'s object); (3) TracerSolve.tracer_init vs TracerMixin.__init__ (DuplicateNameError, index, '
-          'empty Traces); (4) TracerLinked.linked_passes / plain_passes vs traced scripted submodels inside a BaseLinker and an untraced twin linker')
+          'empty Traces); (4) TracerReindex.reindex_cells / copy_cells / trace_t_cells (which cells of the new instance\'s `_trace` array are None, shared '
+          'with the original, or own; does the original\'s Trace change; AttributeError on a new period) vs reindex() / copy(); (5) TracerLinked.linked_passes / plain_passes vs traced scripted submodels inside a BaseLinker and an untraced twin linker')
 RULE = ('scripted models (1-4 variables, 1-5 periods) run as a sequence of 1-5 calls on ONE traced instance and on an untraced twin: '
         'structured lattice entry point {solve_t, solve_period, solve} x trace in {omitted, None, False, True, one name, list / tuple of '
         'names, [], \'\', a generator, a set} x reset in {omitted, False, True} x C02/C06 scenarios (convergence at k=1..3, min_iter/max_iter '
@@ -22,7 +23,9 @@ RULE = ('scripted models (1-4 variables, 1-5 periods) run as a sequence of 1-5 c
         'and out of the span, infeasible periods (lags/leads), hooks that write), then random call sequences incl. repeated solves of one '
         'period (same names, other names of the same width = stale-names finding, another width = finding #16, reset=True, tracing switched off '
         'in between), direct trace_t / trace_period calls (any label, trace None / False / [] / \'\' / unknown names, t or label outside the span) '
-        'before, between and after solves, TRACE_VARIABLES None / subset / empty, unknown names, t outside the span, solve() with unknown start / end '
+        'before, between and after solves, histories (between two calls the user assigns a whole series `m.V = [...]`, or continues on m.copy() / '
+        'm.reindex(<same span>)), reindex to a longer span / copy followed by traced solves of an old and of a new period (exhaustive small lattice; '
+        'the original instance is watched too), TRACE_VARIABLES None / subset / empty, unknown names, t outside the span, solve() with unknown start / end '
         'labels, start > end, lags / leads up to and beyond the span length with default start / end; after the last call the model gets a new '
         'variable and every list passed as trace= and the class\'s TRACE_VARIABLES are edited (no Trace may move); TracerMixin.__init__ over '
         'TRACE_NAME in {free names, every variable, status, iterations} x 0-3 variables x 0-3 periods (exhaustive); linkers over 1-3 traced scripted '
@@ -116,6 +119,8 @@ def py_label(x):
 def _run(m, call, kw):
     e = call['entry']
     try:
+        if e in STATE_OPS:
+            return ['ret', None]                 # already applied (to both instances) by impl
         if e in ('trace_t', 'trace_period'):
             # the public snapshot methods take trace= / reset= only (solver options would be swallowed by **kwargs)
             tk = {k: v for k, v in kw.items() if k in ('trace', 'reset')}
@@ -155,6 +160,8 @@ def impl(case):
         return impl_init(case)
     if case.get('kind') == 'linker':
         return impl_linker(case)
+    if case.get('kind') == 'rx':
+        return impl_rx(case)
     cls = st.make_classes(case['nvars'], case['check'], case['endo'], case.get('lags', 0), case.get('leads', 0), case.get('trace_variables'))
     n = case['n']
     span = list(range(2000, 2000 + n))
@@ -172,8 +179,10 @@ def impl(case):
             specs.append(spec)
         if call.get('reset') is not None:
             tkw['reset'] = bool(call['reset'])
+        if call['entry'] in STATE_OPS:
+            m, u = _state_op(m, call, span), _state_op(u, call, span)
         ncol = len(m.__dict__['_columns'])
-        olds = list(m.__dict__['_trace'])
+        olds = [(t, len(t.index) == 0) for t in m.__dict__['_trace']]
         out_m = _run(m, call, tkw)
         out_u = _run(u, call, kw) if call['entry'] not in DIRECT else ['ret', None]
         s = _snapshot(m, case['nvars'])
@@ -191,6 +200,104 @@ def impl(case):
 
 
 DIRECT = ('trace_t', 'trace_period')
+STATE_OPS = ('assign', 'copy', 'reindex')          # what a user does to the instance between solves
+
+
+def _state_op(m, call, span):
+    e = call['entry']
+    if e == 'assign':
+        setattr(m, 'V%d' % call['var'], [lib.unhex(x) for x in call['values']])      # whole-series list assignment
+        return m
+    if e == 'copy':
+        return m.copy()
+    return m.reindex(list(span))                                                      # the same span: a new instance, equal contents
+
+
+# --------------------------------------------------------------------------- reindex() / copy() of a traced instance
+RX_NEW_SIG = 'C17|TracerMixin.trace_t<-reindex|new-period-holds-None-instead-of-a-Trace|AttributeError'
+RX_SHARED_SIG = 'C17|TracerMixin.trace_t<-reindex|Trace-objects-shared-with-the-original-instance|original-trace-grows'
+
+
+def impl_rx(case):
+    import scripted_tracer as st
+    nv, n, extra = case['nvars'], case['n'], case['extra']
+    span = list(range(2000, 2000 + n))
+    cls = st.make_classes(nv, [0], [0], 0, 0, None)
+    vals = [[lib.fhex(0.25 * (i + 1) + 0.125 * p) for p in range(n)] for i in range(nv)]
+
+    def pipeline(traced):
+        kw = {}
+        if traced:
+            kw['trace'] = py_trace(case['trace'])
+            if case.get('reset') is not None:
+                kw['reset'] = bool(case['reset'])
+        m = st.instantiate(cls, list(span), vals, ['-'] * n, [-1] * n, {})
+        if case['first']:
+            m.solve_t(0, **({'trace': kw['trace']} if traced else {}))
+        old_before = st.observe_traces(m, lib.fhex)
+        start_vals = [lib.fhex(m.__dict__['_V%d' % i][0]) for i in range(nv)]
+        if case['via'] == 'reindex':
+            new = m.reindex(span + [2000 + n + j for j in range(extra)], **{'V%d' % i: 0.0 for i in range(nv)})
+        else:
+            new = m.copy()
+        pattern = []
+        for cell in new.__dict__['_trace']:
+            if cell is None:
+                pattern.append('none')
+            else:
+                q = [j for j, oc in enumerate(m.__dict__['_trace']) if oc is cell]
+                pattern.append(['shared', q[0]] if q else 'own')
+
+        def run(t):
+            try:
+                return ['ret', bool(new.solve_t(t, **kw))]
+            except Exception as ex:
+                c = ex.__cause__
+                return ['raise', type(ex).__name__, type(c).__name__ if c is not None else None]
+        out_a = run(0)
+        old_after = st.observe_traces(m, lib.fhex)
+        out_b = run(n) if (case['via'] == 'reindex' and extra) else None
+        return {'old_before': old_before, 'old_changed': old_after != old_before, 'pattern': pattern, 'outA': out_a, 'outB': out_b,
+                'start_vals': start_vals, 'vals': [[lib.fhex(x) for x in new.__dict__['_V%d' % i]] for i in range(nv)],
+                'status': [str(x) for x in new.__dict__['_status']], 'iters': [int(x) for x in new.__dict__['_iterations']]}
+    return {'rx': pipeline(True), 'rx_twin': pipeline(False)}
+
+
+def oracle_rx(case, obs):
+    fails = []
+
+    def bad(sig, what):
+        fails.append({'sig': sig, 'what': what})
+    x, u = obs['rx'], obs['rx_twin']
+    if x['old_changed']:
+        if case['via'] == 'reindex':
+            bad(RX_SHARED_SIG, 'solve_t(0, trace=%r) on m.reindex(...) changed the Trace of period 0 of the ORIGINAL model m (both hold the same Trace object)' % (py_trace(case['trace']),))
+        else:
+            bad('C17|TracerMixin|copy-shares-trace-objects', 'a traced solve on m.copy() changed a Trace of m')
+    same_a = all(x[k] == u[k] for k in ('outA',)) and (x['outB'] is not None or all(x[k] == u[k] for k in ('vals', 'status', 'iters')))
+    if not same_a:
+        bad('C17|TracerMixin|traced-differs-from-untraced', 'after %s: traced solve_t(0) gives %s, untraced %s' % (case['via'], x['outA'], u['outA']))
+    if x['outB'] is not None and x['outB'] != u['outB']:
+        if x['outB'][:2] == ['raise', 'AttributeError']:
+            bad(RX_NEW_SIG, 'after m.reindex(<longer span>) solve_t(%d, trace=%r) on the new period raises AttributeError (the cell holds None, not a Trace); without trace= it gives %s'
+                % (case['n'], py_trace(case['trace']), u['outB']))
+        else:
+            bad('C17|TracerMixin|traced-differs-from-untraced', 'after reindex: traced solve_t of the new period gives %s, untraced %s' % (x['outB'], u['outB']))
+    elif x['outB'] is not None and any(x[k] != u[k] for k in ('vals', 'status', 'iters')):
+        bad('C17|TracerMixin|traced-differs-from-untraced', 'after reindex: traced and untraced instances differ in values / status / iterations')
+    return fails
+
+
+def c_rxcase(case, obs):
+    x = obs['rx']
+    n = case['n']
+    names = names_of({'nvars': case['nvars'], 'trace_variables': None}, case['trace'])
+    pat = lib.clist('None' if c == 'none' else ('(Some None)' if c == 'own' else '(Some (Some %s))' % lib.cnat(c[1])) for c in x['pattern'])
+    return '(mkRx %s %s %s %s %s %s %s %s %s %s)' % (
+        lib.cbool(case['via'] == 'reindex'), lib.cnat(n), lib.cnat(case['extra'] if case['via'] == 'reindex' else 0),
+        lib.clist(c_trace(t) for t in x['old_before']), pat, lib.clist(lib.cnat(i) for i in names), lib.cbool(bool(case.get('reset'))),
+        lib.clist(lib.cfloat(x['start_vals'][i]) for i in names), lib.cbool(x['old_changed']),
+        lib.cbool(bool(x['outB']) and x['outB'][:2] == ['raise', 'AttributeError']))
 
 
 # --------------------------------------------------------------------------- traced models as submodels of a linker
@@ -373,12 +480,13 @@ def _frames(m, name_id):
 
 
 def _alias_obs(m, olds, spec):
-    """For every Trace object CREATED by the call just made: is its `names` the model's own list, the class's
+    """For every Trace CREATED by the call just made (see below): is its `names` the model's own list, the class's
     TRACE_VARIABLES, the object the caller passed as trace= ?  [[period, is_model, is_class, is_spec], ...]"""
     out = []
     tv = type(m).TRACE_VARIABLES
     for p, t in enumerate(m.__dict__['_trace']):
-        if t is not olds[p] and len(t.index):
+        # created = the cell got a new Trace object, or the period's Trace was empty before the call and was written now
+        if (t is not olds[p][0] or olds[p][1]) and len(t.index):
             out.append([p, t.names is m.__dict__['names'], tv is not None and t.names is tv, spec is not None and t.names is spec])
     return out
 
@@ -463,7 +571,7 @@ def impl_parsed(case):
         tkw['trace'] = ren(t_) if isinstance(t_, str) and t_ else (type(t_)(ren(x) for x in t_) if isinstance(t_, (list, tuple)) else t_)
     if call.get('reset') is not None:
         tkw['reset'] = bool(call['reset'])
-    olds = list(m.__dict__['_trace'])
+    olds = [(t, len(t.index) == 0) for t in m.__dict__['_trace']]
     out_m = _run(m, call, tkw)
     out_u = _run(u, call, kw)
     s = snap(m)
@@ -508,7 +616,7 @@ def _full(case, obs):
 # --------------------------------------------------------------------------- Coq encoding
 PREAMBLE = '''From Coq Require Import PrimFloat ZArith List Bool.
 Import ListNotations.
-Require Import Fsic.Base.PyBase Fsic.Solver.Solver Fsic.Solver.SolverF Fsic.Solver.SolveAll Fsic.Tracer.Tracer Fsic.Tracer.TracerSolve Fsic.Tracer.TracerNames Fsic.Tracer.TracerLinked Fsic.Tracer.TracerF.
+Require Import Fsic.Base.PyBase Fsic.Solver.Solver Fsic.Solver.SolverF Fsic.Solver.SolveAll Fsic.Tracer.Tracer Fsic.Tracer.TracerSolve Fsic.Tracer.TracerNames Fsic.Tracer.TracerLinked Fsic.Tracer.TracerReindex Fsic.Tracer.TracerF.
 Open Scope float_scope. Open Scope Z_scope.
 '''
 
@@ -530,6 +638,10 @@ def c_call(case, call):
         ent = '(ESolveT %s)' % lib.cZ(call['t'])
     elif e == 'solve_period':
         ent = '(ESolvePeriod %s)' % lib.cZ(call['label'])
+    elif e == 'assign':
+        ent = '(ESetSeries %s %s)' % (lib.cnat(call['var']), lib.clist(lib.cfloat(x) for x in call['values']))
+    elif e in ('copy', 'reindex'):
+        ent = 'ENoop'
     elif e == 'trace_t':
         ent = '(ETraceT %s %s)' % (lib.cZ(call['t']), c_label(py_label(call['label'])))
     elif e == 'trace_period':
@@ -577,7 +689,7 @@ def c_fobs(f, t):
 
 def c_res(call, out):
     import scripted
-    if call['entry'] in DIRECT:
+    if call['entry'] in DIRECT + STATE_OPS:
         return '(RUnit (Ret tt))' if out[0] == 'ret' else '(RUnit (Raise %s))' % sc.EXN.get(out[1], 'OtherError')
     if call['entry'] == 'solve':
         if out[0] == 'ret':
@@ -651,7 +763,7 @@ def c_icase(case, obs):
 
 
 def correspond(cases, obs, tag, tier):
-    main = [i for i, c in enumerate(cases) if c.get('kind') not in ('init', 'linker')]
+    main = [i for i, c in enumerate(cases) if c.get('kind') not in ('init', 'linker', 'rx')]
     items = [c_case17(_full(cases[i], obs[i]), obs[i]) for i in main]
     bad, errs = lib.run_coq_cases(tag, PREAMBLE, items, 'bad_indices check_tcase17 0%nat cs', shard=250)
     bad = [main[j] for j in bad]
@@ -660,6 +772,11 @@ def correspond(cases, obs, tag, tier):
         ibad, ierrs = lib.run_coq_cases(tag + 'init', PREAMBLE, [c_icase(cases[i], obs[i]) for i in inits], 'bad_indices check_icase 0%nat cs', shard=2000)
         bad = sorted(set(bad) | {inits[j] for j in ibad})
         errs = errs + ierrs
+    rxs = [i for i, c in enumerate(cases) if c.get('kind') == 'rx']
+    if rxs and not errs:
+        rbad, rerrs = lib.run_coq_cases(tag + 'rx', PREAMBLE, [c_rxcase(cases[i], obs[i]) for i in rxs], 'bad_indices check_rxcase 0%nat cs', shard=1000)
+        bad = sorted(set(bad) | {rxs[j] for j in rbad})
+        errs = errs + rerrs
     litems, lowner = [], []
     for i, (c, o) in enumerate(zip(cases, obs)):
         if c.get('kind') == 'linker':
@@ -673,7 +790,7 @@ def correspond(cases, obs, tag, tier):
     # the names-object model: which list object each freshly created Trace keeps
     aitems, owner = [], []
     for i, (c, o) in enumerate(zip(cases, obs)):
-        if c.get('kind') in ('init', 'linker'):
+        if c.get('kind') in ('init', 'linker', 'rx'):
             continue
         for term in c_acases(_full(c, o), o):
             aitems.append(term)
@@ -686,6 +803,8 @@ def correspond(cases, obs, tag, tier):
 
 
 def explain(case, obs):
+    if case.get('kind') == 'rx':
+        return 'reindex / copy case: model term (check_rxcase) ' + c_rxcase(case, obs)[:3000]
     if case.get('kind') == 'linker':
         return 'linker case: model terms (check_lcase) ' + ' ;; '.join(c_lcases(case, obs))[:3000]
     if case.get('kind') == 'init':
@@ -750,6 +869,8 @@ def oracle(case, obs):
     fails = []
     if case.get('kind') == 'linker':
         return oracle_linker(case, obs)
+    if case.get('kind') == 'rx':
+        return oracle_rx(case, obs)
     if case.get('kind') == 'init':
         return fails            # construction is outside the property's text: the model speaks (K), the oracle has nothing to say
 
@@ -768,6 +889,12 @@ def oracle(case, obs):
         periods = _call_periods(case, call)
         if not tw['traces_untouched']:
             bad('C17|TracerMixin|twin-trace-written', 'call %d: the untraced twin has a non-empty Trace' % ci)
+        if ent in STATE_OPS:
+            # an edit of the instance between solves leaves every Trace, status and iteration count alone
+            if s['traces'] != prev['traces'] or s['status'] != prev['status'] or s['iters'] != prev['iters']:
+                bad('C17|TracerMixin|trace-or-status-changed-by-%s' % ent, 'call %d: %s changed a Trace, a status or an iteration count' % (ci, ent))
+            prev = {'vals': s['vals'], 'status': s['status'], 'iters': s['iters'], 'traces': s['traces']}
+            continue
         if ent in DIRECT:
             # a snapshot method is not a solve: it must leave values, statuses and iteration counts alone, and it may
             # touch the Trace of the period it names only
@@ -927,6 +1054,8 @@ def _check_shapes(case, call, ci, s, prev, names, periods, bad):
 def nontrivial(case, obs):
     if case.get('kind') == 'init':
         return False
+    if case.get('kind') == 'rx':
+        return bool(case['first'])
     if case.get('kind') == 'linker':
         return any(x['passes'] >= 2 for s in obs['lsteps'] for x in s['subs']) or any(s['out'][0] == 'raise' for s in obs['lsteps'])
     for s in obs['steps']:
@@ -944,6 +1073,8 @@ def nontrivial(case, obs):
 def bucket(case, obs):
     if case.get('kind') == 'init':
         return 'init/' + obs['init'][0]
+    if case.get('kind') == 'rx':
+        return 'rx/%s/first=%s/%s' % (case['via'], case['first'], case['trace'][0])
     if case.get('kind') == 'linker':
         o = obs['lsteps'][-1]['out']
         return 'linker/%dsubs/%s/%s' % (len(case['subs']), case['calls'][0].get('trace', ['omit'])[0], o[1] if o[0] == 'raise' else 'ret')
@@ -958,6 +1089,8 @@ def bucket(case, obs):
 
 def shrink_candidates(case):
     if case.get('kind') == 'init':
+        return
+    if case.get('kind') == 'rx':
         return
     if case.get('kind') == 'linker':
         if len(case['calls']) > 1:
@@ -1123,11 +1256,35 @@ def gen(rng, tier):
             d2 = dict(d1, label='end', reset=True)
             c['calls'] = [d1, _call('solve_t', 1, 4, o, ['flag', True]), dict(d1, label=7), d2]
             cases.append(c)
+    # ---- reindex() / copy() of a traced instance, then traced solves through the new instance (exhaustive small lattice)
+    for via in ('reindex', 'copy'):
+        for first in (True, False):
+            for a in (['flag', True], ['name', 1], ['list', [1, 0]], ['tuple', [0]]):
+                for reset in (None, False, True):
+                    for n, extra in ((1, 0), (3, 0), (3, 1), (2, 2)):
+                        if via == 'copy' and extra:
+                            continue
+                        cases.append({'kind': 'rx', 'nvars': 2, 'n': n, 'extra': extra, 'via': via, 'first': first, 'trace': a, 'reset': reset})
     # ---- TracerMixin.__init__: TRACE_NAME free / a variable / 'status' / 'iterations', 0-3 variables, 0-3 periods
     for nv in range(0, 4):
         for n in (0, 1, 3):
             for tn in [['status'], ['iterations']] + [['var', i] for i in range(nv + 1)] + [['fresh', k] for k in range(5)]:
                 cases.append({'kind': 'init', 'nvars': nv, 'n': n, 'trace_name': tn})
+    # ---- histories: traced solve, then assign / copy / reindex (and add_variable-free), then the traced solve again
+    for ent in ('solve_t', 'solve_period', 'solve'):
+        for a in (['flag', True], ['name', 1], ['list', [1, 0]]):
+            for ops in (['assign'], ['copy'], ['reindex'], ['copy', 'assign'], ['assign', 'reindex'], ['reindex', 'assign', 'copy']):
+                c = _case()
+                o = _apply_scenario(c, 1, scen[0])
+                mid = []
+                for j, opn in enumerate(ops):
+                    if opn == 'assign':
+                        mid.append({'entry': 'assign', 'opts': _opts(), 'var': 1 if j % 2 == 0 else 0, 'values': [H(9.5 + j + 0.25 * q) for q in range(4)]})
+                    else:
+                        mid.append({'entry': opn, 'opts': _opts()})
+                first = _call(ent, 1, 4, o, a, None, start=0, end=2)
+                c['calls'] = [first] + mid + [copy.deepcopy(first)]
+                cases.append(c)
     # ---- solve(): the case splits of iter_periods / label validation, traced
     for lags, leads, n, st, en in [(0, 0, 4, None, None), (1, 1, 4, None, None), (2, 2, 4, None, None), (3, 0, 3, None, None), (0, 3, 3, None, None),
                                    (4, 0, 3, None, None), (0, 5, 3, None, None), (1, 0, 1, None, None), (0, 0, 4, 3, 1), (0, 0, 4, 2, 2),
@@ -1406,6 +1563,17 @@ def _random_case(rng, scen):
             calls.append(cl)
         else:
             calls.append(_call(entry, p, n, o, a, reset, neg=rng.random() < 0.3))
+    # histories: between two calls the user assigns a whole series, copies or reindexes the instance
+    if len(calls) >= 2 and rng.random() < 0.35:
+        for _ in range(rng.choice([1, 1, 2])):
+            k = rng.randrange(1, len(calls))
+            q = rng.random()
+            if q < 0.5:
+                op = {'entry': 'assign', 'opts': _opts(), 'var': rng.randrange(nv),
+                      'values': [H(rng.choice([7.5, -3.25, 0.1, 1e6]) + 0.5 * j) for j in range(n)]}
+            else:
+                op = {'entry': rng.choice(['copy', 'reindex']), 'opts': _opts()}
+            calls.insert(k, op)
     # the public snapshot methods called directly, somewhere in the sequence
     if rng.random() < 0.2:
         k = rng.randrange(len(calls) + 1)
